@@ -19,6 +19,7 @@ from sqlparse.utils import imt
 from sqllineage import SQLPARSE_DIALECT
 from sqllineage.core.models import Column, Schema, SubQuery, Table
 from sqllineage.core.parser.sqlparse.utils import get_parameters, is_subquery
+from sqllineage.exceptions import SQLLineageException
 from sqllineage.utils.entities import ColumnQualifierTuple
 from sqllineage.utils.helpers import escape_identifier_name
 
@@ -26,6 +27,11 @@ from sqllineage.utils.helpers import escape_identifier_name
 class SqlParseTable(Table):
     @staticmethod
     def of(table: Identifier) -> Table:
+        if not isinstance(table, Identifier):
+            raise SQLLineageException(
+                "An Identifier is expected, got %s[value: %s] instead."
+                % (type(table).__name__, table)
+            )
         # rewrite identifier's get_real_name method, by matching the last dot instead of the first dot, so that the
         # real name for a.b.c will be c instead of b
         dot_idx, _ = table._token_matching(
@@ -63,13 +69,16 @@ class SqlParseColumn(Column):
     def of(column: Token, **kwargs) -> Column:
         if isinstance(column, Identifier):
             alias = column.get_alias()
+            idx = None
             if alias:
                 # handle column alias, including alias for column name or Case, Function
                 kw_idx, kw = column.token_next_by(m=(T.Keyword, "AS"))
                 if kw_idx is None:
                     # alias without AS
                     kw_idx, _ = column.token_next_by(i=Identifier)
-                idx, _ = column.token_prev(kw_idx, skip_cm=True)
+                if kw_idx is not None:
+                    idx, _ = column.token_prev(kw_idx, skip_cm=True)
+            if alias and idx is not None:
                 expr = grouping.group(TokenList(column.tokens[: idx + 1]))[0]
                 source_columns = SqlParseColumn._extract_source_columns(expr)
                 return Column(
